@@ -153,7 +153,8 @@ PROPS['C10'] = c10
 
 def c14(tier):
     chk = core.Check('C14', tier)
-    chk.assumptions = ASSUME_DECL + ["a rejected probe must fail with E0599 (no such method / associated function) inside that probe function"]
+    chk.assumptions = ASSUME_DECL + ["a probe counts as rejected when rustc reports an error inside that probe function (any code; the codes seen are listed under coverage.rejection_error_codes); "
+                                     "the argument expressions are validated by the full-chain probe of the same struct, which must compile"]
     structs = []
     structs += S.plain_structs(2, 3)
     structs += S.plain_structs(3, 3) if tier == 'thorough' else S.plain_structs(3, 2) + S.plain_structs(3, 3, accesses=('rw', 'r'))
@@ -183,6 +184,7 @@ def c14(tier):
     nprobes = 0
     nexpect_fail = 0
     off_cnt = 0
+    codes = {}
     for j, (s, offered, probes) in enumerate(meta):
         text = S.bld_struct_text(s)
         off_cnt += offered
@@ -206,18 +208,19 @@ def c14(tier):
                 bad = f"must compile but is rejected ({e[0]})"
             elif (not expect_ok) and not failed:
                 bad = "must not compile but is accepted"
-            elif (not expect_ok) and failed and not any(c == 'E0599' for c, _ in e):
-                bad = f"rejected for another reason than a missing method ({e[0]})"
+            elif (not expect_ok) and failed:
+                for c, _ in e:
+                    codes[c] = codes.get(c, 0) + 1
             if bad:
                 what = ("builder_exists" if sq is None else "typestate") if offered or sq is None else "builder_offered_unsound"
                 chk.add_violation(f"{text} :: {ptext}", what, f"{what}: {text} :: {ptext} {bad} (model: builder {'offered' if offered else 'not offered'})",
-                                  decl_replay(text, "accept", [(k, ptext)], {k: "accept" if expect_ok else "E0599"}))
+                                  decl_replay(text, "accept", [(k, ptext)], {k: "accept" if expect_ok else "reject"}))
     chk.states += len(structs)
     chk.programs += len(structs) + nprobes
     chk.transitions += nprobes + len(structs)
     chk.validated += nprobes
     chk.extra.update({"structs": len(structs), "probes": nprobes, "probes_expected_to_fail": nexpect_fail, "structs_with_builder_by_model": off_cnt,
-                      "structs_with_full_call_sequence_enumeration": n_allseq})
+                      "structs_with_full_call_sequence_enumeration": n_allseq, "rejection_error_codes": codes})
     per = {}
     for s, offered, probes in meta:
         e = per.setdefault(s.family, {"fields": 0, "transitions": 0, "states": 0, "violations": 0})
@@ -260,7 +263,7 @@ def types_prelude(structs):
 def c17(tier):
     from . import rustgen as R
     chk = core.Check('C17', tier)
-    chk.assumptions = ASSUME_DECL + ["an absent member must fail with E0599 inside its probe function; the dynamic half (read-only bits cannot change) is C02's frame condition"]
+    chk.assumptions = ASSUME_DECL + ["an absent member counts as absent when rustc reports an error inside its probe function (codes listed under coverage.rejection_error_codes; the same argument expressions compile where the member is present); the dynamic half (read-only bits cannot change) is C02's frame condition"]
     cases = S.c17_structs(tier)
     arts = D.carrier()
     prelude = D.PRELUDE + types_prelude([s for _, s in cases])
@@ -273,6 +276,7 @@ def c17(tier):
     if unatt:
         raise B.MachineryError(f"C17: diagnostics that could not be attributed: {unatt[:3]}")
     nprobes = nfail = 0
+    codes = {}
     for j, (kname, s, probes) in enumerate(meta):
         text = R.struct_decl(s)
         if j in errs:
@@ -288,11 +292,12 @@ def c17(tier):
                 bad = f"must exist but does not compile ({e[0]})"
             elif not expect_ok and not e:
                 bad = "must not exist but compiles"
-            elif not expect_ok and e and not any(c == 'E0599' for c, _ in e):
-                bad = f"rejected for another reason than a missing method ({e[0]})"
+            elif not expect_ok and e:
+                for c, _ in e:
+                    codes[c] = codes.get(c, 0) + 1
             if bad:
                 chk.add_violation(f"{text} :: {t}", "api_surface", f"access '{f0.access or 'none'}' field of kind {kname}: {text} :: {t} {bad}",
-                                  decl_replay(text, "accept", [(k, t)], {k: "accept" if expect_ok else "E0599"}, prelude=prelude))
+                                  decl_replay(text, "accept", [(k, t)], {k: "accept" if expect_ok else "reject"}, prelude=prelude))
         e = chk.per_family.setdefault(s.family, {"fields": 0, "transitions": 0, "states": 0, "violations": 0})
         e["states"] += 1
         e["transitions"] += len(probes)
@@ -302,10 +307,10 @@ def c17(tier):
     chk.transitions += nprobes + len(cases)
     chk.validated += nprobes
     chk.distinct_outcomes = 2
-    chk.extra.update({"structs": len(cases), "probes": nprobes, "probes_expected_to_fail": nfail})
+    chk.extra.update({"structs": len(cases), "probes": nprobes, "probes_expected_to_fail": nfail, "rejection_error_codes": codes})
     for j in (0, len(meta) // 2, len(meta) - 3):
         kname, s, probes = meta[j]
-        chk.sample({"declaration": R.struct_decl(s), "probes": [{"text": t, "model_expects": "compiles" if ok else "E0599"} for _, t, ok in probes]})
+        chk.sample({"declaration": R.struct_decl(s), "probes": [{"text": t, "model_expects": "compiles" if ok else "rejected"} for _, t, ok in probes]})
     if nfail == 0 or nfail == nprobes:
         core.vacuous("C17: no variation in probe verdicts")
     chk.bounds.append("field kinds {bool, uN, native, signed, bool/uN arrays, multi-range, multi-range array, exhaustive enum, Option<enum>, enum arrays, nested bitfield, high/ full-width fields} "
